@@ -6,7 +6,7 @@ import ast
 
 from ..lin import Lin
 from ..avals import *   # noqa
-from ..decide import Runs, need_ge0, need_eq0, definite, soft
+from ..decide import benign_unknown, Runs, need_ge0, need_eq0, definite, soft
 from ..report import Ob, PROVED, REFUTED, UNDECIDED, func_where, ASSUMPTIONS, Failure
 from ..model import norm_text, AnalysisError
 from .c13 import cipher_ob, _whole_key
@@ -79,7 +79,7 @@ def check(prog, res, tier):
         return fails
     res.add(runs_t.judge('C14.a', 'TSP = 11 rightmost PAN digits excluding the check digit ++ key index ++ leftmost 4 PIN digits (16 digits)',
                          func_where(tfi), "f'{rightmost_11}{key_table_index}{pin[:4]}'", chk_t,
-                         sample=lambda ps: [repr(tsp_of(p)) for p in ps][:2], unknown_ok=lambda u: True))
+                         sample=lambda ps: [repr(tsp_of(p)) for p in ps][:2], unknown_ok=benign_unknown))
 
     # ---- C14.b result width constants
     pfi = prog.func('pinblock.calculate_pvv')
@@ -465,7 +465,7 @@ def kcv_ob(prog, res, fi):
         return fails
     return runs.judge('C14.e', 'the key check value is the leading kvc_length hex digits of the encryption of zero bytes',
                       func_where(fi), "hexlify(encryptor.update(b'\\x00' * 16) + encryptor.finalize())[0:kvc_length]", chk,
-                      rule='C14.e.kcv', unknown_ok=lambda u: True)
+                      rule='C14.e.kcv', unknown_ok=benign_unknown)
 
 
 def cipher_ob_generic(prog, res, fi):
@@ -509,4 +509,4 @@ def cipher_ob_generic(prog, res, fi):
         return fails
     return runs.judge('C14.d', f'{fi.short} encrypts with TripleDES in ECB mode', func_where(fi),
                       'Cipher(TripleDES(key), modes.ECB()).encryptor()', chk, rule=f'C14.d.{fi.short}',
-                      unknown_ok=lambda u: True)
+                      unknown_ok=benign_unknown)
